@@ -38,9 +38,13 @@ def observe_prims(A, boundgeom, fails, site):
     for bp, p in zip(boundgeom.primitives(), boundgeom.original.primitives):
         kind = PRIM_KIND.get(type(bp).__name__, type(bp).__name__)
         mat = bp.material
+        shapes = []
+        for sh in bp.shapes():
+            shapes.append({'verts': rows(sh.vertices), 'normals': None if sh.normals is None else rows(sh.normals),
+                           'material': 0 if sh.material is None else A.get(sh.material.id, BAD)})
         out.append({'kind': kind, 'material': 0 if mat is None else A.get(mat.id, BAD),
                     'verts': [] if bp.vertex is None else rows(bp.vertex),
-                    'normals': None if bp.normal is None else rows(bp.normal)})
+                    'normals': None if bp.normal is None else rows(bp.normal), 'shapes': shapes})
         # index arrays are unchanged by binding
         for name in ('index', 'vertex_index', 'normal_index'):
             a, b = getattr(bp, name, None), getattr(p, name, None)
@@ -137,6 +141,17 @@ def compare(kind, got, want, fails):
                 if a['material'] != b['material']:
                     fail('material', b['kind'], 'object %d primitive %d: material %r, the instance binds its symbol to %r'
                          % (i, j, a['material'], b['material']))
+                # what iterating the bound primitive hands out
+                if [x['verts'] for x in a['shapes']] != [x['verts'] for x in b['shapes']]:
+                    fail('vertices', b['kind'] + '-shapes', 'object %d primitive %d: the shapes carry vertices %r, expected %r'
+                         % (i, j, [x['verts'] for x in a['shapes']], [x['verts'] for x in b['shapes']]))
+                # (a Triangle without normals generates its own face normal: only sourced normals are compared)
+                if b['normals'] is not None and [x['normals'] for x in a['shapes']] != [x['normals'] for x in b['shapes']]:
+                    fail('normals', b['kind'] + '-shapes', 'object %d primitive %d: the shapes carry normals %r, expected %r'
+                         % (i, j, [x['normals'] for x in a['shapes']], [x['normals'] for x in b['shapes']]))
+                if any(x['material'] != b['material'] for x in a['shapes']):
+                    fail('material', b['kind'] + '-shapes', 'object %d primitive %d: a shape carries material %r, the instance binds its symbol to %r'
+                         % (i, j, [x['material'] for x in a['shapes']], b['material']))
 
 
 def run_case(lib, case):
